@@ -42,7 +42,9 @@ def cases(draw):
     m = model.sid
     pm = model.paths[model.default_config]
     ptypes = [t for t in m.types if pm.has_path(t)]
-    ents = draw(gens.universe(m, types=ptypes, min_size=3, max_size=14, names=["x", "y", "x_y", "x-1"]))
+    # names: a tiny pool plus two values of the leaf vocabulary (a node named like an extension makes one string fit two types)
+    leafs = sorted({l for (tt, kk), sp in m.specs.items() if kk == m.keys(tt)[-1] and m.is_leaf_type(tt) for l in sp.literals if l not in m.extension_alias})[:2]
+    ents = draw(gens.universe(m, types=ptypes, min_size=3, max_size=14, names=["x", "y", "x_y", "x-1"] + leafs))
     data = {}
     for i in range(len(ents)):
         if draw(st.integers(0, 9)) < 6:
@@ -57,13 +59,15 @@ def cases(draw):
             if anc:
                 t, f = anc[draw(st.integers(0, len(anc) - 1))]
         if draw(st.integers(0, 9)) < 2:
+            sr = {"s": m.render(t, f), "labels": ["plain"]}     # the entity itself (often asked as a Sid object, see below)
+        elif draw(st.integers(0, 9)) < 2:
             sr = draw(gens.gt_search(m, t, f))
         else:
             sr = draw(gens.search_from(m, t, f, allow_gt=False, allow_malformed=False))
         attrs = draw(st.sampled_from([None, None, ["comment"], ["comment", "author"], ["nokey"], ["sid", "frames"], ["k1", "nokey", "comment"],
                                         ["version"], ["type", "comment"]]))
         enc = draw(st.sampled_from(["str", "str", "uri", "none"]))
-        searches.append({"s": sr["s"], "attributes": attrs, "encode": enc})
+        searches.append({"s": sr["s"], "attributes": attrs, "encode": enc, "obj": draw(st.integers(0, 4 if sr.get("labels") != ["plain"] else 1)) == 0, "pick": draw(st.integers(0, 5))})
     others = [c for c in model.paths if c != model.default_config]
     config = draw(st.sampled_from(others)) if others and draw(st.integers(0, 3)) == 0 else None
     return {"entities": [[t, f] for t, f in ents], "data": data, "searches": searches, "config": config}
@@ -79,7 +83,7 @@ def evaluate(case) -> Outcome:
     ents = [(t, f) for t, f in case["entities"]]
     tree.reset(model)
     tree.materialise(model, cname, ents)
-    stored = {}   # sid string -> data
+    stored = {}   # sid uri -> data (two types may share one string, e.g. a cache node named like an extension)
     for i, d in case["data"].items():
         t, f = ents[int(i) % len(ents)]
         p = pm.render(t, f)
@@ -92,13 +96,13 @@ def evaluate(case) -> Outcome:
     existing = tree.existing_set(model, cname, ents)
     for u, (t, f, s) in existing.items():
         sc = model.data_mod.get_data_json_path(Path(pm.render(t, f)))
-        stored[s] = json.loads(sc.read_text()) if sc.exists() else {}
+        stored[u] = json.loads(sc.read_text()) if sc.exists() else {}
     out = Outcome(sample={"entities": [m.render(t, f) for t, f in ents][:6], "searches": case["searches"]})
     out.evaluations = 0
     nt = []
 
     def expected_record(sid, attrs, enc):
-        d = dict(stored.get(str(sid), {}))
+        d = dict(stored.get(sid.uri, {}))
         e = ENCODERS[enc](sid)
         if e:
             d["sid"] = e
@@ -109,6 +113,14 @@ def evaluate(case) -> Outcome:
     for sr in case["searches"]:
         s, attrs, enc = sr["s"], sr["attributes"], sr["encode"]
         encf = ENCODERS[enc]
+        as_object = False
+        if sr.get("obj") and "?" not in s and ":" not in s:
+            # the search given as a Sid OBJECT, typed with any of the templates accepting the string
+            tts = list(m.types_all(s))
+            if tts:
+                s = Sid(tts[sr.get("pick", 0) % len(tts)] + ":" + s)
+                as_object = True
+                out.label("search-as-sid-object")
         ok, found = call(lambda: list(FindInPaths(cname).find(s)))
         ok2, recs = call(lambda: list(GetFromPaths(cname).get(s, attributes=attrs, sid_encode=encf)))
         out.evaluations += 2
@@ -130,7 +142,7 @@ def evaluate(case) -> Outcome:
                     sig = "C16/paths/order-or-sid-differs"
                 out.add(sig, f"{what}: record for {sid!r} is {dict(rec)}, expected {exp}")
                 break
-        if len(found) >= 2 and any(stored.get(str(x)) for x in found):
+        if len(found) >= 2 and any(stored.get(x.uri) for x in found):
             nt.append(sr)
         out.label(f"records:{min(len(found), 5)}", "enc:" + enc, "attrs:" + ("none" if attrs is None else "list"))
 
@@ -142,6 +154,8 @@ def evaluate(case) -> Outcome:
             out.add("C16/get_one/not-first-record", f"get_one({s!r}, {attrs}, {enc}) = {dict(one)}, first record {dict(recs[0]) if recs else {} }")
 
         # GetFromAll (reads the default path configuration)
+        if as_object:
+            continue
         path, q = refsearch.split_search(s)
         if not is_default or ">" in s or (q and any(k in refsearch.narrowing_keys(m) for k, _ in refsearch.parse_query(q))):
             continue
@@ -181,14 +195,14 @@ def evaluate(case) -> Outcome:
             oka, v = call(lambda: GetFromPaths(cname).get_attr(sid, k))
             if not oka:
                 out.add(f"C16/get_attr/raises/{exc_sig(v)}", f"get_attr({u!r}, {k!r}) raised {v!r}")
-            elif v != stored.get(s, {}).get(k):
-                out.add("C16/get_attr/differs", f"get_attr({u!r}, {k!r}) = {v!r}, stored {stored.get(s, {}).get(k)!r}")
+            elif v != stored.get(u, {}).get(k):
+                out.add("C16/get_attr/differs", f"get_attr({u!r}, {k!r}) = {v!r}, stored {stored.get(u, {}).get(k)!r}")
             if not is_default:
                 continue
             okb, v2 = call(lambda: sid.get_attr(k))
             okg, g = call(conf.get_getter_for, sid, k, None)
             if okb and okg:
-                want = stored.get(s, {}).get(k) if g is not None else None
+                want = stored.get(u, {}).get(k) if g is not None else None
                 if v2 != want:
                     out.add("C16/sid-get_attr/differs", f"Sid({u!r}).get_attr({k!r}) = {v2!r}, expected {want!r} (configured getter: {g})")
             elif not okb:
@@ -206,7 +220,7 @@ def evaluate(case) -> Outcome:
             for c in (cname, other):
                 okc, rec = call(lambda: dict(GetFromPaths(c).get_data(t0 + ":" + s0)))
                 out.evaluations += 1
-                want = dict(stored.get(s0, {}), sid=s0) if c == cname else {"where": other, "sid": s0}
+                want = dict(stored.get(t0 + ":" + s0, {}), sid=s0) if c == cname else {"where": other, "sid": s0}
                 if not okc:
                     out.add(f"C16/config/raises/{exc_sig(rec)}", f"GetFromPaths({c!r}).get_data({s0!r}) raised {rec!r}")
                 elif rec != want:
